@@ -76,12 +76,21 @@ var unicodeSpecials = []string{"\uFFFD", "\uFEFF", "\uD7FF", "\uE000", "\U000100
 const alphabet = "abcdefghijklmnopqrstuvwxyzABCDEFGHIJKLMNOPQRSTUVWXYZ0123456789/-_."
 
 // Str returns a well-formed UTF-8 string of exactly n bytes (no U+0000).
+// LibraryWords: words and phrases the library under test itself prints (set by
+// the scenarios from String()/Dump() of fresh packets): a value equal to one of
+// the library's display sentinels ("no filters!", "<nil>") is the case code that
+// recognises a state by its rendering gets wrong.
+var LibraryWords []string
+
 var filterCorpus = []string{"#", "+", "a/+/b", "a/#", "+/+", "/", "//", "a//b", "$SYS/#", "$SYS/broker/load", "$share/g/t", "$share/g/#", "$share", "$share/", "$share/g", "$share/g/", "$share//t", "$share/+/t", "$queue/t", "a/b/c/d/e/f/g/h", "sport/tennis/+", "x"}
 
 // Filter returns a topic filter: one time in four from a corpus of filters that
 // matter to MQTT (wildcards, shared subscriptions with and without a filter part,
 // $-topics, empty levels), otherwise a generated string of the drawn length.
 func (g *G) Filter() []byte {
+	if len(LibraryWords) > 0 && g.T.Bool(1, 40) {
+		return []byte(LibraryWords[g.T.Int(len(LibraryWords))])
+	}
 	if g.T.Bool(1, 4) {
 		return []byte(filterCorpus[g.T.Int(len(filterCorpus))])
 	}
@@ -93,6 +102,9 @@ var specials = []string{"#", "+", "a/+/b", "a/#", "$SYS/broker/load", "$share/gr
 func (g *G) Str(n int) []byte {
 	if n == 0 {
 		return []byte{}
+	}
+	if n <= 24 && len(LibraryWords) > 0 && g.T.Bool(1, 60) {
+		return []byte(LibraryWords[g.T.Int(len(LibraryWords))])
 	}
 	if n <= 24 {
 		switch g.T.Pick(20, 1, 1) {
